@@ -4,7 +4,10 @@ CHECKS["C05"] = dict(
     units=[unit("c05", "./verifx/sim", "^TestC05", shards=(16, 16), timeout=(900, 3400))],
     rule=("prefix: rapid-generated fault schedule (5..90 steps of deliver/drop/duplicate/timeout/partition/burst) on a cluster "
           "(n in {4,7}, three rulesets, <= f crashed plus isolated replicas, leaders fixed / round-robin / scripted inside the "
-          "quorum Q). Suffix (algorithmic): only Q is connected; rounds of 'deliver everything in flight among Q in FIFO order "
+          "quorum Q); a quarter of the prefixes are lag-shaped (a minority cut off while the rest goes on by progress or timeouts, "
+          "crossing messages lost, heal), a quarter deep-lag (one later member of Q cut off for 3..16 rounds) and, when a live replica is "
+          "cut off during the suffix, a quarter relay-shaped (every timer fires but only that replica hears the timeouts, what it sends "
+          "afterwards reaches a few others, everything else is lost). Suffix (algorithmic): only Q is connected; rounds of 'deliver everything in flight among Q in FIFO order "
           "until quiescent, then fire the timer of every member that made no progress'. Oracle: (a) no stall - three consecutive "
           "rounds in which no member of Q changes view, high QC or commit count; (b) every member of Q commits a new block before "
           "more than 4*chainLength+2 views led by members of Q have passed since the suffix started; (c) fault-free synchronous "
